@@ -176,6 +176,15 @@ def breakdown(js, crate):
             name = f["function"]
             if name.startswith(crate + "::"):
                 name = name[len(crate) + 2:]
+            if name in fns:
+                # two impls with the same Type::fn name in one unit: keep them apart, and never let a
+                # success hide a failure
+                k = 2
+                while "%s#%d" % (name, k) in fns:
+                    k += 1
+                fns["%s#%d" % (name, k)] = dict(ok=bool(f["success"]), rlimit=f.get("rlimit", 0), micros=f.get("time-micros", 0))
+                fns[name]["ok"] = fns[name]["ok"] and bool(f["success"])
+                continue
             fns[name] = dict(ok=bool(f["success"]), rlimit=f.get("rlimit", 0), micros=f.get("time-micros", 0))
     return fns
 
